@@ -724,10 +724,23 @@ func recordEnds(fn string) []int64 {
 
 // ---------------------------------------------------------------- Gallina printing
 
+// gz prints an int64 through a primitive 63-bit integer literal (parsed natively by coqc; a Z
+// literal costs milliseconds each): z / zn are defined in corr/CorrC23.v.
+func gz(v int64) string {
+	switch {
+	case v == math.MinInt64:
+		return "minInt64"
+	case v < 0:
+		return fmt.Sprintf("(zn %d%%uint63)", -v)
+	default:
+		return fmt.Sprintf("(z %d%%uint63)", v)
+	}
+}
+
 func gSmp(ss []smp) string {
 	it := make([]string, len(ss))
 	for i, s := range ss {
-		it[i] = "(" + gallina.Z(s.T) + "," + gallina.Z(s.V) + ")"
+		it[i] = "(" + gz(s.T) + "," + gz(s.V) + ")"
 	}
 	return gallina.List(it)
 }
@@ -740,7 +753,7 @@ func gAssoc(m map[int][]smp) string {
 	sort.Ints(ks)
 	var it []string
 	for _, k := range ks {
-		it = append(it, "("+gallina.Z(int64(k))+","+gSmp(m[k])+")")
+		it = append(it, "("+gz(int64(k))+","+gSmp(m[k])+")")
 	}
 	return gallina.List(it)
 }
@@ -755,7 +768,7 @@ func gAnswer(o *obsT) string {
 func gEx(es []exm) string {
 	it := make([]string, len(es))
 	for i, e := range es {
-		it[i] = "(" + gallina.Z(int64(e.L)) + ",(" + gallina.Z(e.T) + "," + gallina.Z(e.ID) + "))"
+		it[i] = "(" + gz(int64(e.L)) + ",(" + gz(e.T) + "," + gz(e.ID) + "))"
 	}
 	return gallina.List(it)
 }
@@ -766,13 +779,13 @@ func gDump(d *dumpT, mv int64, ooo, blk map[int][]smp, nser int) string {
 		var rec string
 		switch e.Kind {
 		case "s":
-			rec = fmt.Sprintf("WSample %s (%s,%s)", gallina.Z(int64(e.L)), gallina.Z(e.A), gallina.Z(e.B))
+			rec = fmt.Sprintf("WSample %s (%s,%s)", gz(int64(e.L)), gz(e.A), gz(e.B))
 		case "t":
-			rec = fmt.Sprintf("WTomb %s (%s,%s)", gallina.Z(int64(e.L)), gallina.Z(e.A), gallina.Z(e.B))
+			rec = fmt.Sprintf("WTomb %s (%s,%s)", gz(int64(e.L)), gz(e.A), gz(e.B))
 		default:
-			rec = fmt.Sprintf("WEx %s (%s,%s)", gallina.Z(int64(e.L)), gallina.Z(e.A), gallina.Z(e.B))
+			rec = fmt.Sprintf("WEx %s (%s,%s)", gz(int64(e.L)), gz(e.A), gz(e.B))
 		}
-		w = append(w, fmt.Sprintf("mkW %s %s %s (%s)", gallina.Bool(e.CP), gallina.Z(int64(e.Seg)), gallina.Z(e.Off), rec))
+		w = append(w, fmt.Sprintf("mkW %s %s %s (%s)", gallina.Bool(e.CP), gz(int64(e.Seg)), gz(e.Off), rec))
 	}
 	var ch []string
 	var ks []int
@@ -785,7 +798,7 @@ func gDump(d *dumpT, mv int64, ooo, blk map[int][]smp, nser int) string {
 		for _, c := range d.Chunks[k] {
 			cs = append(cs, gSmp(c))
 		}
-		ch = append(ch, "("+gallina.Z(int64(k))+","+gallina.List(cs)+")")
+		ch = append(ch, "("+gz(int64(k))+","+gallina.List(cs)+")")
 	}
 	snap := "None"
 	if s := d.Snap; s != nil {
@@ -796,7 +809,7 @@ func gDump(d *dumpT, mv int64, ooo, blk map[int][]smp, nser int) string {
 		}
 		sort.Ints(hk)
 		for _, k := range hk {
-			has = append(has, gallina.Z(int64(k)))
+			has = append(has, gz(int64(k)))
 		}
 		var tb []string
 		var tk []int
@@ -807,18 +820,18 @@ func gDump(d *dumpT, mv int64, ooo, blk map[int][]smp, nser int) string {
 		for _, k := range tk {
 			var iv []string
 			for _, x := range s.Tomb[k] {
-				iv = append(iv, "("+gallina.Z(x[0])+","+gallina.Z(x[1])+")")
+				iv = append(iv, "("+gz(x[0])+","+gz(x[1])+")")
 			}
-			tb = append(tb, "("+gallina.Z(int64(k))+","+gallina.List(iv)+")")
+			tb = append(tb, "("+gz(int64(k))+","+gallina.List(iv)+")")
 		}
-		snap = fmt.Sprintf("(Some (mkSnR %s %s true %s %s %s %s))", gallina.Z(int64(s.Idx)), gallina.Z(int64(s.Off)),
+		snap = fmt.Sprintf("(Some (mkSnR %s %s true %s %s %s %s))", gz(int64(s.Idx)), gz(int64(s.Off)),
 			gAssoc(s.HC), gallina.List(has), gallina.List(tb), gEx(s.Ex))
 	}
 	var univ []string
 	for i := 0; i < nser; i++ {
-		univ = append(univ, gallina.Z(int64(i)))
+		univ = append(univ, gz(int64(i)))
 	}
-	return fmt.Sprintf("(mkDR %s %s %s %s %s %s %s %s %s %s)", gallina.Z(mv), gallina.Z(int64(d.LastSeg)), gallina.Z(int64(d.CPIdx)),
+	return fmt.Sprintf("(mkDR %s %s %s %s %s %s %s %s %s %s)", gz(mv), gz(int64(d.LastSeg)), gz(int64(d.CPIdx)),
 		gallina.List(w), gallina.List(ch), gallina.Bool(d.ChunksOK), snap, gAssoc(ooo), gAssoc(blk), gallina.List(univ))
 }
 
@@ -964,9 +977,9 @@ func main() {
 	meta := gallina.NewMeta("C23", f.Seed, f.Tier)
 	meta.Rule = "one evaluation = one generated history closed with a snapshot and reopened in up to 9 variants; non-trivial = the snapshot was really loaded in variant a, it carried at least one head chunk, and the WAL-only reopen replayed at least one sample record; distinct by history"
 	cf := &gallina.CaseFile{Dir: f.Out, Type: "case", PerShard: 40,
-		Preamble: "From Coq Require Import List ZArith Bool.\nFrom Verif Require Import model.Snapshot corr.CorrC23.\nImport ListNotations.\nOpen Scope Z_scope.\n",
+		Preamble: "From Coq Require Import List ZArith Bool Uint63.\nFrom Verif Require Import model.Snapshot corr.CorrC23.\nImport ListNotations.\nOpen Scope Z_scope.\n",
 		Footer:   gallina.StdFooter}
-	n := f.Count(5, 96)
+	n := f.Count(2, 78)
 	debug := os.Getenv("C23_DEBUG") != ""
 	scratch, err := os.MkdirTemp(f.Out, "c23_")
 	if err != nil {
@@ -1209,6 +1222,12 @@ func main() {
 			meta.Hit("c-truncation-at-record-boundary-dropped")
 		}
 		// an unnoticed flip in the head chunk file (e.g. inside unused space) : keep (results must still agree)
+		if dmp.MultiRef {
+			// known finding: a series re-created under a new ref keeps its first ref after a WAL
+			// replay; chunk files / WBL records written under the new ref cannot be resolved by a
+			// later start from the snapshot (no series record is replayed then)
+			desc.Shape = "snapshot-drops-data-of-recreated-series"
+		}
 		if staleNonPos {
 			// regression class of the fixed defect (/repo 5693077124): WAL records with
 			// timestamps <= 0 replayed behind an outdated snapshot
@@ -1282,8 +1301,8 @@ func main() {
 			return n
 		}
 		qs := []string{share(oa), share(ob), share(ooff), share(oc), share(od1), share(od2), share(oe), share(oe2)}
-		term := fmt.Sprintf("(%s\n mkCase %s %s\n  %s\n  %s %s %s)", strings.Join(lets, "\n "),
-			gallina.Z(int64(i)), gDump(dmp, ob.MV, ob.OOO, ob.Blk, h.Cfg.NSeries),
+		term := fmt.Sprintf("(%s\n mkCase %s %s %s\n  %s\n  %s %s %s)", strings.Join(lets, "\n "),
+			gz(int64(i)), gallina.Bool(dmp.MultiRef), gDump(dmp, ob.MV, ob.OOO, ob.Blk, h.Cfg.NSeries),
 			strings.Join(qs, " "),
 			gEx(preE), gEx(ea), gEx(eb))
 		cf.Add(term)
@@ -1317,8 +1336,8 @@ func corpusHistories() []corpusT {
 		{"recreated-series", histT{Cfg: cfgT{BlockRange: 1000, OOOWindow: 0, SPC: 2, MaxEx: 0, NSeries: 2}, FirstSnap: false, Ops: []opT{
 			tx(appT{0, 100, 1, false}, appT{1, 110, 2, false}), tx(appT{0, 200, 3, false}), tx(appT{1, 900, 4, false}), tx(appT{1, 1700, 5, false}),
 			tx(appT{1, 2700, 6, false}), tx(appT{1, 3200, 7, false}), {K: "compact"},
-			tx(appT{0, 3300, 8, false}), tx(appT{0, 3400, 9, false}), tx(appT{0, 3500, 10, false}),
-			{K: "restart", Snap: false}, tx(appT{0, 3600, 11, false}), {K: "restart", Snap: true}, tx(appT{0, 3700, 12, false})}}},
+			tx(appT{0, 3300, 8, false}), tx(appT{0, 3400, 9, false}), tx(appT{0, 4100, 10, false}),
+			{K: "restart", Snap: false}, tx(appT{0, 4200, 11, false})}}},
 		{"compaction", histT{Cfg: c, FirstSnap: true, Ops: []opT{
 			tx(appT{0, 100, 1, false}, appT{1, 150, 2, false}), tx(appT{0, 900, 3, false}), tx(appT{0, 1700, 4, false}, appT{1, 1800, 5, false}),
 			tx(appT{0, 2700, 6, false}), {K: "compact"}, tx(appT{0, 2800, 7, false}), {K: "del", Mint: 2000, Maxt: 2750, Sel: -1},
